@@ -41,7 +41,7 @@ func (s *c06) Name() string {
 func (s *c06) Build(w *World) {
 	t := w.Tape
 	drawProfile(w)
-	s.dag = GenDAG(t, GenCfg{MaxBlocks: 3 + t.Draw(16), MaxDepth: 2 + t.Draw(4), BlockPad: []int{0, 0, 40}[t.Draw(3)], Share: []int{0, 100, 300}[t.Draw(3)], Empty: []int{0, 0, 80}[t.Draw(3)]})
+	s.dag = GenDAG(t, GenCfg{MaxBlocks: 3 + t.Draw(16), MaxDepth: 2 + t.Draw(4), BlockPad: []int{0, 0, 40}[t.Draw(3)], Share: []int{0, 100, 300}[t.Draw(3)], Empty: []int{0, 0, 80}[t.Draw(3)], Alias: []int{0, 0, 100}[t.Draw(3)]})
 	s.sel, s.selDesc = GenSelector(t, 8)
 	s.split = GenSplit(t, s.dag)
 	if t.Chance(300) {
